@@ -74,8 +74,27 @@ const (
 	voOpSnapKeep1          // Store.Snapshot(1): snapshot, keep one trailing log entry
 	voOpSnapKeepAll        // Store.Snapshot(0): snapshot, raft's default number of trailing entries (everything is kept)
 	voOpNoop               // one NOOP command (a command entry that does not change the database)
+	voOpRewrite            // one EXECUTE command that adds 10 to the newest tag in place (the file does not grow; not idempotent)
 	voOpN
 )
+
+// voBump in a WAL's list of operations: "add 10 to the newest tag" (everything else: append the tag)
+const voBump = 250
+
+// voApplyOps: the state a database file in state base reaches through the operations of its WAL.
+func voApplyOps(base []int, ops []int) []int {
+	out := append([]int{}, base...)
+	for _, op := range ops {
+		if op == voBump {
+			if len(out) > 0 {
+				out[len(out)-1] += 10
+			}
+		} else {
+			out = append(out, op)
+		}
+	}
+	return out
+}
 
 // what happens to the files between the shutdown and the next open
 const (
@@ -187,6 +206,10 @@ type voSnap struct {
 	conf      raft.Configuration
 	confIndex uint64
 	tags      []int
+	// incremental: the snapshot consists of WAL files on top of an older full snapshot (every
+	// snapshot a running node takes after its first one); a stream opened from it carries the base
+	// database file plus WAL files
+	incremental bool
 }
 
 type voEntry struct {
@@ -197,6 +220,7 @@ type voEntry struct {
 
 type voSnapRC struct {
 	tags   []int
+	hasWAL bool // the stream carries WAL files to be replayed into the database file
 	closed bool
 }
 
@@ -215,6 +239,9 @@ type voSink struct {
 func (s *voSink) ID() string { return s.snap.id }
 
 func (s *voSink) Write(p []byte) (int, error) {
+	if s.w.inject("sink.Write") {
+		return 0, voErrInjected
+	}
 	if s.closes > 0 || s.cancelled {
 		s.w.badCalls++
 		return 0, errors.New("verif: write to a finished sink")
@@ -225,6 +252,9 @@ func (s *voSink) Write(p []byte) (int, error) {
 
 func (s *voSink) Close() error {
 	s.closes++
+	if s.w.inject("sink.Close") {
+		return voErrInjected
+	}
 	if s.cancelled || s.closes > 1 {
 		return nil
 	}
@@ -285,17 +315,22 @@ type voWorld struct {
 	rm         *voRaftModel
 	badCalls   int
 	logDeletes int
+	injecting  bool
+	failAt     int
+	envCalls   int
+	injected   string // which call failed ("" = none)
 
 	// --- native only ---
 	ly net.Listener
 
 	// --- both ---
-	entry     string
-	choices   []string // the history, as chosen
-	obs       []string // what was observed along it (model conformance, see conformance_test.go)
-	s         *Store   // the node while it is open
-	selfAddr  string
-	electable bool
+	crcMismatch bool // the asynchronous checksum check of the fast path found another checksum than the marker's
+	entry       string
+	choices     []string // the history, as chosen
+	obs         []string // what was observed along it (model conformance, see conformance_test.go)
+	s           *Store   // the node while it is open
+	selfAddr    string
+	electable   bool
 }
 
 var voW *voWorld
@@ -340,9 +375,28 @@ func (w *voWorld) markerPath() string { return filepath.Join(w.dir, "clean_snaps
 func (w *voWorld) peersPath() string  { return filepath.Join(w.dir, "raft", "peers.json") }
 func (w *voWorld) peersInfo() string  { return filepath.Join(w.dir, "raft", "peers.info") }
 
+// recoveryWALPath: the WAL file of the temporary database RecoverNode works in.
+func (w *voWorld) recoveryWALPath() string { return filepath.Join(w.dir, "recovery.db-wal") }
+
 // --- abstract file system ---
 
 var voErrNotExist = &fs.PathError{Op: "verif", Path: "?", Err: fs.ErrNotExist}
+
+// Injected failures (engine-only entry VerifC33bFailures): while an Open is under way every call of
+// the environment that can fail is counted; the call with number failAt fails - without any effect.
+var voErrInjected = errors.New("verif: injected failure of the environment")
+
+func (w *voWorld) inject(what string) bool {
+	if w == nil || !w.injecting {
+		return false
+	}
+	w.envCalls++
+	if w.envCalls == w.failAt {
+		w.injected = what
+		return true
+	}
+	return false
+}
 
 func (w *voWorld) newDBNode(tags []int) *voNode {
 	w.verCtr++
@@ -409,6 +463,9 @@ func voOsStat(name string) (os.FileInfo, error) {
 
 func voOsRemove(name string) error {
 	w := voW
+	if w.inject("os.Remove") {
+		return voErrInjected
+	}
 	n, ok := w.nodes[name]
 	if !ok {
 		return voErrNotExist
@@ -426,6 +483,9 @@ func voOsRemove(name string) error {
 
 func voOsRemoveAll(name string) error {
 	w := voW
+	if w.inject("os.RemoveAll") {
+		return voErrInjected
+	}
 	delete(w.nodes, name)
 	for k := range w.nodes {
 		if strings.HasPrefix(k, name+"/") {
@@ -455,6 +515,9 @@ func voOsMkdirAll(path string, perm os.FileMode) error {
 
 func voOsRename(oldpath, newpath string) error {
 	w := voW
+	if w.inject("os.Rename") {
+		return voErrInjected
+	}
 	n, ok := w.nodes[oldpath]
 	if !ok {
 		return voErrNotExist
@@ -475,6 +538,9 @@ func voGlob(pattern string) ([]string, error) { return nil, nil }
 // createTemp: a fresh empty file in dir.
 func voCreateTemp(dir, pattern string) (*os.File, error) {
 	w := voW
+	if w.inject("createTemp") {
+		return nil, voErrInjected
+	}
 	if par, ok := w.nodes[dir]; !ok || par.kind != voKDir {
 		return nil, voErrNotExist
 	}
@@ -496,6 +562,9 @@ func voFileFd(f *os.File) uintptr {
 
 func voFPWriteToFile(f *FileFingerprint, path string) error {
 	w := voW
+	if w.inject("FileFingerprint.WriteToFile") {
+		return voErrInjected
+	}
 	if par, ok := w.nodes[filepath.Dir(path)]; !ok || par.kind != voKDir {
 		return voErrNotExist
 	}
@@ -564,13 +633,25 @@ func voDecodeTags(b []byte) ([]int, bool) {
 
 func voRestore(r io.Reader, dstPath string) (int64, error) {
 	w := voW
+	if w.inject("snapshot.Restore") {
+		return 0, voErrInjected
+	}
 	rc, ok := r.(*voSnapRC)
 	if !ok || rc.closed {
 		w.badCalls++
 		return 0, errors.New("verif: not a snapshot stream")
 	}
+	// snapshot.Restore: the database file of the stream is written to dstPath (created or
+	// truncated); WAL files of the stream are then replayed into it with db.ReplayWAL, which
+	// refuses to work next to an existing dstPath-wal. A WAL file that already lies next to
+	// dstPath is not touched otherwise.
+	if rc.hasWAL {
+		w.nodes[dstPath] = w.newDBNode(nil)
+		if _, ok := w.nodes[dstPath+"-wal"]; ok {
+			return 1, errors.New("checkpointing WALs: cannot replay WAL files: existing WAL file present")
+		}
+	}
 	w.nodes[dstPath] = w.newDBNode(rc.tags)
-	delete(w.nodes, dstPath+"-wal")
 	return 1, nil
 }
 
@@ -578,6 +659,9 @@ func voDefaultDriver() *sql.Driver { return nil }
 
 func voOpenSwappable(dbPath string, drv *sql.Driver, fkEnabled, wal bool, maxROConns int) (*sql.SwappableDB, error) {
 	w := voW
+	if w.inject("db.OpenSwappable") {
+		return nil, voErrInjected
+	}
 	if !wal {
 		w.badCalls++ // rqlite databases are WAL-mode databases
 	}
@@ -588,6 +672,11 @@ func voOpenSwappable(dbPath string, drv *sql.Driver, fkEnabled, wal bool, maxROC
 		w.nodes[dbPath] = w.newDBNode(nil)
 	} else if n.kind != voKDB {
 		return nil, errors.New("verif: file is not a database")
+	}
+	// "If the database is opened in WAL mode, the WAL files will also be created if they do not
+	// exist". A WAL file that is already there is used: whatever it holds is part of the database.
+	if _, ok := w.nodes[dbPath+"-wal"]; !ok {
+		w.nodes[dbPath+"-wal"] = &voNode{kind: voKWAL}
 	}
 	for _, p := range w.handles {
 		if p == dbPath {
@@ -615,18 +704,23 @@ func (w *voWorld) walTags(path string) []int {
 	return nil
 }
 
-// checkpointPath: the WAL goes into the main file.
+// checkpointPath: the WAL goes into the main file (TRUNCATE: the WAL file stays, empty).
 func (w *voWorld) checkpointPath(path string) {
 	wal := w.walTags(path)
 	if len(wal) > 0 {
 		n := w.nodes[path]
-		w.setDBTags(n, append(append([]int{}, n.tags...), wal...))
+		w.setDBTags(n, voApplyOps(n.tags, wal))
 	}
-	delete(w.nodes, path+"-wal")
+	if n, ok := w.nodes[path+"-wal"]; ok {
+		n.tags = nil
+	}
 }
 
 func voDBCheckpoint(db *sql.SwappableDB, wr io.Writer, timeout time.Duration) (*sql.CheckpointManagerMeta, int64, error) {
 	w := voW
+	if w.inject("SwappableDB.Checkpoint") {
+		return nil, 0, voErrInjected
+	}
 	path, ok := w.handles[db]
 	if !ok {
 		w.badCalls++
@@ -639,6 +733,9 @@ func voDBCheckpoint(db *sql.SwappableDB, wr io.Writer, timeout time.Duration) (*
 // Swap: the open database is replaced by the file at path.
 func voDBSwap(db *sql.SwappableDB, path string, fkConstraints, walEnabled bool) error {
 	w := voW
+	if w.inject("SwappableDB.Swap") {
+		return voErrInjected
+	}
 	dst, ok := w.handles[db]
 	if !ok {
 		w.badCalls++
@@ -648,9 +745,11 @@ func voDBSwap(db *sql.SwappableDB, path string, fkConstraints, walEnabled bool) 
 	if !ok || n.kind != voKDB {
 		return errors.New("verif: swap source is not a database file")
 	}
+	// (*SwappableDB).Swap: close, remove the files of the old database, rename, open (WAL mode)
 	delete(w.nodes, dst+"-wal")
 	delete(w.nodes, path)
 	w.nodes[dst] = n
+	w.nodes[dst+"-wal"] = &voNode{kind: voKWAL}
 	return nil
 }
 
@@ -693,6 +792,9 @@ func voProcess(c *CommandProcessor, data []byte, db *sql.SwappableDB) (*proto.Co
 		return &proto.Command{Type: proto.Command_COMMAND_TYPE_NOOP}, false, &fsmGenericResponse{}
 	}
 	tag := voTagOf(data)
+	if len(data) == 1 && data[0] == 0xC9 {
+		tag = voBump
+	}
 	if tag < 0 {
 		w.badCalls++
 		return &proto.Command{Type: proto.Command_COMMAND_TYPE_NOOP}, false, &fsmGenericResponse{}
@@ -707,12 +809,22 @@ func voProcess(c *CommandProcessor, data []byte, db *sql.SwappableDB) (*proto.Co
 		n = &voNode{kind: voKWAL}
 		w.nodes[wp] = n
 	}
+	if tag == voBump {
+		// a database without a tag has no table yet: the UPDATE fails and nothing is written
+		main, ok := w.nodes[path]
+		if !ok || len(voApplyOps(main.tags, n.tags)) == 0 {
+			return &proto.Command{Type: proto.Command_COMMAND_TYPE_EXECUTE}, false, &fsmExecuteQueryResponse{}
+		}
+	}
 	n.tags = append(n.tags, tag)
 	return &proto.Command{Type: proto.Command_COMMAND_TYPE_EXECUTE}, true, &fsmExecuteQueryResponse{}
 }
 
 func voNewSnapshotStreamer(dbPath string, walPaths ...string) (*snapshot.SnapshotStreamer, error) {
 	w := voW
+	if w.inject("snapshot.NewSnapshotStreamer") {
+		return nil, voErrInjected
+	}
 	n, ok := w.nodes[dbPath]
 	if !ok || n.kind != voKDB {
 		return nil, errors.New("verif: no such database file")
@@ -803,6 +915,9 @@ func (sn *voSnap) meta() *raft.SnapshotMeta {
 }
 
 func voSnapList(s *snapshot.Store) ([]*raft.SnapshotMeta, error) {
+	if voW.inject("snapshot.Store.List") {
+		return nil, voErrInjected
+	}
 	if sn := voW.newestSnap(); sn != nil {
 		return []*raft.SnapshotMeta{sn.meta()}, nil
 	}
@@ -823,9 +938,12 @@ func voSnapPkgLatestIndexTerm(dir string) (uint64, uint64, error) {
 }
 
 func voSnapOpen(s *snapshot.Store, id string) (*raft.SnapshotMeta, io.ReadCloser, error) {
+	if voW.inject("snapshot.Store.Open") {
+		return nil, nil, voErrInjected
+	}
 	for _, sn := range voW.snaps {
 		if sn.id == id {
-			return sn.meta(), &voSnapRC{tags: append([]int{}, sn.tags...)}, nil
+			return sn.meta(), &voSnapRC{tags: append([]int{}, sn.tags...), hasWAL: sn.incremental}, nil
 		}
 	}
 	return nil, nil, snapshot.ErrSnapshotNotFound
@@ -834,6 +952,9 @@ func voSnapOpen(s *snapshot.Store, id string) (*raft.SnapshotMeta, io.ReadCloser
 func voSnapCreate(s *snapshot.Store, version raft.SnapshotVersion, index, term uint64, configuration raft.Configuration,
 	configurationIndex uint64, trans raft.Transport) (raft.SnapshotSink, error) {
 	w := voW
+	if w.inject("snapshot.Store.Create") {
+		return nil, voErrInjected
+	}
 	w.snapSeq++
 	sn := &voSnap{id: "snap-" + voItoa(w.snapSeq), seq: w.snapSeq, index: index, term: term, version: version,
 		conf: configuration, confIndex: configurationIndex}
@@ -844,6 +965,9 @@ func voSnapCreate(s *snapshot.Store, version raft.SnapshotVersion, index, term u
 
 func voLogNew(path string, noFreelistSync bool) (*rlog.Log, error) {
 	w := voW
+	if w.inject("log.New") {
+		return nil, voErrInjected
+	}
 	if w.logOpen {
 		w.badCalls++ // bbolt's file lock: a second open in the same process would block
 		return nil, errors.New("verif: the log is already open")
@@ -873,6 +997,9 @@ func voBoltLastIndex(b *raftboltdb.BoltStore) (uint64, error) { return voW.lastI
 
 func voBoltGetLog(b *raftboltdb.BoltStore, index uint64, out *raft.Log) error {
 	w := voW
+	if w.inject("log.GetLog") {
+		return voErrInjected
+	}
 	if len(w.ents) == 0 || index < w.first || index > w.lastIdx() {
 		return raft.ErrLogNotFound
 	}
@@ -894,6 +1021,9 @@ func voBoltStoreLogs(b *raftboltdb.BoltStore, ls []*raft.Log) error {
 
 func voBoltDeleteRange(b *raftboltdb.BoltStore, min, max uint64) error {
 	w := voW
+	if w.inject("log.DeleteRange") {
+		return voErrInjected
+	}
 	w.logDeletes++
 	var keep []voEntry
 	var first uint64
@@ -1062,9 +1192,10 @@ func voNewRaft(conf *raft.Config, fsm raft.FSM, logs raft.LogStore, stable raft.
 	if err != nil {
 		return nil, fmt.Errorf("failed to find last log: %v", err)
 	}
+	var entries []*raft.Log
 	for idx := snapIdx + 1; idx <= last; idx++ {
-		var l raft.Log
-		if err := logs.GetLog(idx, &l); err != nil {
+		l := new(raft.Log)
+		if err := logs.GetLog(idx, l); err != nil {
 			return nil, fmt.Errorf("failed to get log at index %d: %v", idx, err)
 		}
 		if l.Type == raft.LogConfiguration {
@@ -1072,12 +1203,10 @@ func voNewRaft(conf *raft.Config, fsm raft.FSM, logs raft.LogStore, stable raft.
 				rm.conf = c
 			}
 		}
+		entries = append(entries, l)
 	}
-	for idx := snapIdx + 1; idx <= last; idx++ {
-		l := new(raft.Log)
-		if err := logs.GetLog(idx, l); err != nil {
-			panic("verif: log entry vanished")
-		}
+	for _, l := range entries {
+		idx := l.Index
 		if l.Type == raft.LogCommand {
 			fsm.Apply(l)
 			rm.applied = append(rm.applied, idx)
@@ -1122,6 +1251,10 @@ func (w *voWorld) newStore() *Store {
 	s.ElectionTimeout = 100 * time.Millisecond
 	s.LeaderLeaseTimeout = 100 * time.Millisecond
 	s.RaftLogLevel = "ERROR"
+	s.SnapshotThreshold = 8192 // rqlited's default; Open derives the number of trailing log entries (10240) from it
+	// production aborts the process when the checksum of a vouched-for file does not match; the
+	// hook rqlite's own tests use makes that observable instead
+	s.crcBadHandler = func(_, _ uint32) { w.crcMismatch = true }
 	return s
 }
 
@@ -1232,9 +1365,30 @@ func (w *voWorld) waitReady(s *Store) {
 		}
 		time.Sleep(5 * time.Millisecond)
 	}
+	// raft's applied index moves when entries are handed to the FSM goroutine, not when they have
+	// been applied. Wait (bounded; the oracle judges afterwards) until the FSM goroutine has been
+	// through the last command entry of the log, which the Store shows in fsmIdx.
+	fi, li, err := s.boltStore.Indexes()
+	if err != nil {
+		panic(err)
+	}
+	target, err := s.boltStore.LastCommandIndex(fi, li)
+	if err != nil {
+		panic(err)
+	}
+	if target > w.newestSnapshotIndex() {
+		deadline = time.Now().Add(10 * time.Second)
+		for s.fsmIdx.Load() < target && time.Now().Before(deadline) {
+			time.Sleep(2 * time.Millisecond)
+		}
+	}
 }
 
-const voCreateTable = "CREATE TABLE IF NOT EXISTS vlog (id INTEGER PRIMARY KEY AUTOINCREMENT, tag INTEGER, pad BLOB)"
+// The tags live in small rows of vlog (an UPDATE of one of them rewrites its page in place: the file
+// does not grow); every write also puts 20000 bytes into vpad, so that a file that has taken a write
+// in always has another size than before.
+const voCreateTable = "CREATE TABLE IF NOT EXISTS vlog (id INTEGER PRIMARY KEY AUTOINCREMENT, tag INTEGER)"
+const voCreatePad = "CREATE TABLE IF NOT EXISTS vpad (id INTEGER PRIMARY KEY AUTOINCREMENT, pad BLOB)"
 
 // write: one committed and applied write that appends the tag.
 func (w *voWorld) write(tag int) {
@@ -1248,7 +1402,9 @@ func (w *voWorld) write(tag int) {
 	}
 	er := &proto.ExecuteRequest{Request: &proto.Request{Statements: []*proto.Statement{
 		{Sql: voCreateTable},
-		{Sql: "INSERT INTO vlog(tag, pad) VALUES(" + voItoa(tag) + ", zeroblob(20000))"},
+		{Sql: voCreatePad},
+		{Sql: "INSERT INTO vlog(tag) VALUES(" + voItoa(tag) + ")"},
+		{Sql: "INSERT INTO vpad(pad) VALUES(zeroblob(20000))"},
 	}}}
 	rs, _, err := w.s.Execute(context.Background(), er)
 	if err != nil {
@@ -1258,6 +1414,26 @@ func (w *voWorld) write(tag int) {
 		if r.GetError() != "" {
 			panic("verif: write failed: " + r.GetError())
 		}
+	}
+}
+
+// rewrite: one committed and applied write that adds 10 to the newest tag (no tag: changes nothing).
+func (w *voWorld) rewrite() {
+	if verifSymbolic() {
+		idx := w.appendEntry(raft.LogCommand, []byte{0xC9})
+		l := &raft.Log{Index: idx, Term: w.term, Type: raft.LogCommand, Data: []byte{0xC9}}
+		NewFSM(w.s).Apply(l)
+		w.rm.fsmLastIndex, w.rm.fsmLastTerm = idx, w.term
+		w.rm.lastAppliedIdx = idx
+		return
+	}
+	// a single statement: before the first write there is no table, the statement fails inside
+	// SQLite ("no such table") and nothing is written - the entry is in the log all the same
+	er := &proto.ExecuteRequest{Request: &proto.Request{Statements: []*proto.Statement{
+		{Sql: "UPDATE vlog SET tag = tag + 10 WHERE id = (SELECT MAX(id) FROM vlog)"},
+	}}}
+	if _, _, err := w.s.Execute(context.Background(), er); err != nil {
+		panic("verif: rewrite failed: " + err.Error())
 	}
 }
 
@@ -1306,11 +1482,12 @@ func (w *voWorld) snapshotNow(trailing uint64) {
 	if len(w.snaps) > 0 && len(w.walTags(path)) == 0 {
 		return
 	}
+	incremental := len(w.snaps) > 0
 	w.checkpointPath(path)
 	n := w.nodes[path]
 	w.snapSeq++
 	w.addSnap(&voSnap{id: "snap-" + voItoa(w.snapSeq), seq: w.snapSeq, index: rm.fsmLastIndex, term: rm.fsmLastTerm,
-		version: 1, conf: rm.conf, confIndex: 1, tags: append([]int{}, n.tags...)})
+		version: 1, conf: rm.conf, confIndex: 1, tags: append([]int{}, n.tags...), incremental: incremental})
 	w.nodes[w.markerPath()] = &voNode{kind: voKMarker, fp: n.identity()}
 	if trailing == 0 {
 		trailing = 10240
@@ -1413,9 +1590,16 @@ func (w *voWorld) tamper(kind int) bool {
 			path := w.dbPath()
 			n := w.nodes[path]
 			before := n.mtimeNs
+			sizeBefore := n.size()
 			changed := len(w.walTags(path)) > 0
 			w.checkpointPath(path)
+			delete(w.nodes, path+"-wal")
 			if kind == voTamperCheckpointSameTime {
+				if changed && n.size() == sizeBefore {
+					// content changed, time and size did not: only the checksum can tell, and
+					// production aborts on it by design - not a situation the oracle speaks about
+					return false
+				}
 				n.mtimeNs = before
 			} else if !changed {
 				n.mtimeNs += 1_000_000_000 // the checkpoint opened the file; make the time differ for sure
@@ -1443,6 +1627,7 @@ func (w *voWorld) tamper(kind int) bool {
 		fp.ModTime = fp.ModTime.Add(time.Second)
 		fp.WriteToFile(w.markerPath())
 	case voTamperCheckpointSameTime, voTamperCheckpoint:
+		walHeldWrites := w.walHoldsWrites()
 		st, err := os.Stat(w.dbPath())
 		if err != nil {
 			panic(err)
@@ -1456,6 +1641,13 @@ func (w *voWorld) tamper(kind int) bool {
 		}
 		db.Close()
 		sql.RemoveWALFiles(w.dbPath())
+		st2, err := os.Stat(w.dbPath())
+		if err != nil {
+			panic(err)
+		}
+		if kind == voTamperCheckpointSameTime && walHeldWrites && st2.Size() == st.Size() {
+			return false
+		}
 		t := st.ModTime()
 		if kind == voTamperCheckpoint {
 			t = t.Add(time.Second)
@@ -1482,8 +1674,7 @@ func (w *voWorld) liveTags() (tags []int, ok bool) {
 		if !ok || n.kind != voKDB {
 			return nil, false
 		}
-		tags = append(tags, n.tags...)
-		tags = append(tags, w.walTags(path)...)
+		tags = voApplyOps(n.tags, w.walTags(path))
 		return tags, true
 	}
 	rows, err := w.s.db.QueryStringStmt("SELECT tag FROM vlog ORDER BY id")
@@ -1626,6 +1817,32 @@ func (w *voWorld) newestSnapshotIndex() uint64 {
 		return 0
 	}
 	return metas[0].Index
+}
+
+// snapshotCount / newestSnapshotIsIncremental: the snapshot store as it lies on disk (node up or down).
+func (w *voWorld) snapshotCount() int {
+	if verifSymbolic() {
+		return len(w.snaps)
+	}
+	ss, err := (&snapshot.SnapshotCatalog{}).Scan(filepath.Join(w.dir, "wsnapshots"))
+	if err != nil {
+		return 0
+	}
+	return ss.Len()
+}
+
+func (w *voWorld) newestSnapshotIsIncremental() bool {
+	if verifSymbolic() {
+		sn := w.newestSnap()
+		return sn != nil && sn.incremental
+	}
+	ss, err := (&snapshot.SnapshotCatalog{}).Scan(filepath.Join(w.dir, "wsnapshots"))
+	if err != nil || ss.Len() == 0 {
+		return false
+	}
+	ids := ss.IDs()
+	_, wals, err := ss.ResolveFiles(ids[len(ids)-1])
+	return err == nil && len(wals) > 0
 }
 
 // walHoldsWrites: the node is down and there is a WAL file with content next to the main file.
